@@ -211,6 +211,8 @@ BASE_CONFIGS = [
     ([3, 4], 3, 1, 1, 1, 3),
     ([3, 3, 3], 2, 4, 0, 0, 1),      # initial ranks above what the unfoldings can carry (clipped by the pre-iteration)
     ([4, 6], 3, 5, 0, 0, 2),
+    ([2, 3, 2], 2, 1, 2, 2, 2),      # growth by two on nearly square unfoldings (fewer free rows than dr_min)
+    ([3, 2], 2, 1, 2, 3, 2),
 ]
 
 
